@@ -29,6 +29,43 @@ func verifC14SnappyChunks() {
 	verifReach("end")
 }
 
+// a reused reader after a damaged chunk (a message whose bytes were damaged on the way; the local
+// replicator skips it and goes on with the same reader): the damaged chunk is rejected, and the next
+// chunk the writer produced decodes to exactly its rows.
+func verifC14SnappyAfterDamage() {
+	w := NewSnappyWriter()
+	r := NewSnappyReader()
+	a := verifSymBytes("rowsA", 3)
+	b := verifSymBytes("rowsB", 3)
+	_, _ = w.Write(a)
+	verifAssert(w.Close() == nil, "close A")
+	chunkA := w.Bytes()
+	_, _ = w.Write(b)
+	verifAssert(w.Close() == nil, "close B")
+	chunkB := w.Bytes()
+	bad := append([]byte{}, chunkA...)
+	switch verifChoose("damage", 3) {
+	case 0: // the stream identifier
+		bad[0] ^= 0xFF
+	case 1: // a byte of the identifier's magic body
+		bad[5] ^= 0x01
+	case 2: // cut in the middle
+		bad = bad[:len(bad)-2]
+	}
+	if verifChoose("goodChunkFirst", 2) == 1 {
+		got, err := r.Uncompress(chunkA)
+		verifAssert(err == nil && bytes.Equal(got, a), "a chunk decodes to its own rows")
+	}
+	got, err := r.Uncompress(bad)
+	verifAssert(err != nil || bytes.Equal(got, a), "a damaged chunk is rejected (or still decodes to its rows)")
+	got, err = r.Uncompress(chunkB)
+	verifAssert(err == nil, "the chunk after a damaged one decodes")
+	if err == nil {
+		verifAssert(bytes.Equal(got, b), "the chunk after a damaged one decodes to its own rows")
+	}
+	verifReach("end")
+}
+
 func verifC14SnappyReach() {
 	w := NewSnappyWriter()
 	r := NewSnappyReader()
